@@ -34,6 +34,14 @@ CONSTANTS
     IncomingKinds,  \* subset of {"both", "trace", "span"}: Frame::push of incoming trace id + span id,
                     \* of a trace id alone, of a span id alone ({}: none)
     WithLazy,       \* BOOLEAN: offer async-fn spans (begin happens at the first poll)
+    HasRng,         \* BOOLEAN: FALSE = a runtime without a random source
+    ExplicitKinds,  \* subset of BOOLEAN: {FALSE} = ids always generated; TRUE in it: span nodes whose
+                    \* macro names trace_id, span_parent and span_id explicitly (the control parameters
+                    \* captured by CaptureTraceId / CaptureSpanId; documented: explicit ids take precedence)
+    PushLastWins,   \* BOOLEAN, level B only: TRUE = within ONE pushed property set the last value of a
+                    \* duplicate key wins (ThreadLocalCtxt::open_push inserts while iterating
+                    \* ctxt_props.and_props(span_ctxt)) - the code as it is, so generated ids overwrite
+                    \* explicit ones (finding F30); FALSE = the first value wins, as documented
     WithCancel,     \* BOOLEAN: offer dropping a suspended async span (cancellation)
     CancelOwnIds,   \* BOOLEAN, level B only: TRUE = a span completing from its guard's Drop outside its
                     \* frame uses the ids stored in the guard; FALSE = it uses whatever is ambient where
@@ -50,8 +58,15 @@ INCS == MaxSpans + 3          \* logical context "an incoming span id, no trace 
 IsInc(x) == x \in {INC, INCT, INCS}
 IN_TR == 2 * MaxSpans + 1     \* incoming trace id
 IN_SP == 2 * MaxSpans + 2     \* incoming span id
-DrawTrace(i) == 2 * i - 1
-DrawSpan(i) == 2 * i
+\* HasRng = FALSE: the runtime has no random source (Option::None / Empty as Rng): nothing can be
+\* drawn, spans have no ids of their own (the statement's "non-zero and distinct" presupposes a
+\* source); everything else must still hold with absent ids
+DrawTrace(i) == IF HasRng THEN 2 * i - 1 ELSE 0
+DrawSpan(i) == IF HasRng THEN 2 * i ELSE 0
+\* ids given explicitly to span i by the program (chosen by the environment, like incoming ids)
+ExTr(i) == 4 * MaxSpans + 10 + 3 * i
+ExId(i) == 4 * MaxSpans + 11 + 3 * i
+ExPa(i) == 4 * MaxSpans + 12 + 3 * i
 
 (***************************************************************************)
 (* Context forms.  The statement does not depend on the form, so level A is *)
@@ -64,7 +79,7 @@ DrawSpan(i) == 2 * i
 (* distinguishes the two).  Every program of this specification is replayed *)
 (* through the forms in rotation (the program number picks the form).       *)
 (***************************************************************************)
-AllCtxForms == {"value", "ref", "option", "box", "arc", "dyn", "ambient"}
+AllCtxForms == {"value", "ref", "option", "box", "arc", "dyn", "ambient", "norng"}
 OpenKinds == {"push", "root", "disabled"}
 FormOpen(form, kind) == kind        \* what the wrapped context is asked to open
 ASSUME CtxForms \subseteq AllCtxForms /\ CtxForms # {}
@@ -82,7 +97,7 @@ VARIABLES
 svars == <<cx, hist, sp, fsp, ctxof, lazy, em>>
 sview == <<cx, sp, fsp, ctxof, lazy, em>>
 
-NoSpan == [st |-> "none", en |-> FALSE, ids |-> <<0, 0, 0>>, encl |-> 0]
+NoSpan == [st |-> "none", en |-> FALSE, ids |-> <<0, 0, 0>>, encl |-> 0, ex |-> FALSE]
 
 -----------------------------------------------------------------------------
 (* Level A *)
@@ -91,11 +106,13 @@ LogicalCtx(c, co, t) == IF c.stk[t] = <<>> THEN 0 ELSE co[Top(c, t).f]
 RECURSIVE A_Trace(_, _)
 A_Trace(s, x) == IF x = 0 \/ x = INCS THEN 0
                  ELSE IF x = INC \/ x = INCT THEN IN_TR
+                 ELSE IF s[x].ex THEN ExTr(x)                                 \* explicit ids take precedence
                  ELSE IF s[x].encl = 0 \/ s[x].encl = INCS THEN DrawTrace(x)   \* outermost span: its own trace
                  ELSE A_Trace(s, s[x].encl)                                   \* the outermost span's / the incoming trace id
-A_Id(x) == IF x = 0 \/ x = INCT THEN 0 ELSE IF x = INC \/ x = INCS THEN IN_SP ELSE DrawSpan(x)
-A_Parent(s, x) == IF x = 0 \/ IsInc(x) THEN 0 ELSE A_Id(s[x].encl)
-A_Ids(s, x) == <<A_Trace(s, x), A_Id(x), A_Parent(s, x)>>
+A_Id(s, x) == IF x = 0 \/ x = INCT THEN 0 ELSE IF x = INC \/ x = INCS THEN IN_SP
+              ELSE IF s[x].ex THEN ExId(x) ELSE DrawSpan(x)
+A_Parent(s, x) == IF x = 0 \/ IsInc(x) THEN 0 ELSE IF s[x].ex THEN ExPa(x) ELSE A_Id(s, s[x].encl)
+A_Ids(s, x) == <<A_Trace(s, x), A_Id(s, x), A_Parent(s, x)>>
 
 SObs(c, s, co) == [t \in Threads |-> A_Ids(s, LogicalCtx(c, co, t))]
 
@@ -103,6 +120,7 @@ SObs(c, s, co) == [t \in Threads |-> A_Ids(s, LogicalCtx(c, co, t))]
 \* the root of the tree a logical context belongs to
 RECURSIVE RootOf(_)
 RootOf(x) == IF x = 0 \/ IsInc(x) THEN x
+             ELSE IF sp[x].ex THEN x                                  \* its explicit trace id starts a tree
              ELSE IF sp[x].encl = 0 \/ sp[x].encl = INCS THEN x      \* nothing gives it a trace id: it starts one
              ELSE RootOf(sp[x].encl)
 TraceOfRoot(x) == IF x = INC \/ x = INCT THEN IN_TR ELSE IF x = 0 \/ x = INCS THEN 0 ELSE sp[x].ids[1]
@@ -118,9 +136,17 @@ Child(t, i) ==
     <<IF cur[1] # 0 THEN cur[1] ELSE DrawTrace(i), DrawSpan(i), cur[2]>>
 
 \* SpanGuard::new: the span record and the frame (pushed with ids / disabled)
-SpanRec(t, i, v) == [st |-> "live", en |-> v, ids |-> Child(t, i), encl |-> LogicalCtx(cx, ctxof, t)]
-OpenSpanFrame(c, t, i, v) ==
-    IF v THEN CxOpen(c, t, 1, "push", Child(t, i)) ELSE CxOpen(c, t, 1, "disabled", Child(t, i))
+\* level B: ctxt_props.and_props(span_ctxt) - the explicit properties come first and win
+SpanIds(t, i, x) ==
+    IF ~x THEN Child(t, i)
+    ELSE IF PushLastWins
+         THEN <<Child(t, i)[1], Child(t, i)[2], IF Child(t, i)[3] # 0 THEN Child(t, i)[3] ELSE ExPa(i)>>
+         ELSE <<ExTr(i), ExId(i), ExPa(i)>>
+SpanRecX(t, i, v, x) == [st |-> "live", en |-> v, ids |-> SpanIds(t, i, x), encl |-> LogicalCtx(cx, ctxof, t), ex |-> x]
+SpanRec(t, i, v) == SpanRecX(t, i, v, FALSE)
+OpenSpanFrameX(c, t, i, v, x) ==
+    IF v THEN CxOpen(c, t, 1, "push", SpanIds(t, i, x)) ELSE CxOpen(c, t, 1, "disabled", SpanIds(t, i, x))
+OpenSpanFrame(c, t, i, v) == OpenSpanFrameX(c, t, i, v, FALSE)
 CtxOfSpan(t, i, v) == IF v THEN i ELSE LogicalCtx(cx, ctxof, t)
 
 \* the event a completion / emit! produces on thread t: ambient ids of level B, plus the
@@ -137,18 +163,22 @@ SInit ==
     /\ em = <<>>
 
 \* #[emit::span] on a sync fn / block, new_span! + call, SpanGuard::new + enter: begin and enter
-Begin(t, v) ==
+Begin(t, v, x) ==
     /\ FreeSpans # {} /\ FreeFrames(cx) # {}
     /\ Len(cx.stk[t]) < MaxDepth
     /\ LET i == NextSpan
            f == NextFrame(cx)
-       IN /\ sp' = [sp EXCEPT ![i] = SpanRec(t, i, v)]
-          /\ cx' = CxEnter(OpenSpanFrame(cx, t, i, v), t, f, "span", 0)
+       IN /\ sp' = [sp EXCEPT ![i] = SpanRecX(t, i, v, x)]
+          /\ cx' = CxEnter(OpenSpanFrameX(cx, t, i, v, x), t, f, "span", 0)
           /\ fsp' = [fsp EXCEPT ![f] = i]
           /\ ctxof' = [ctxof EXCEPT ![f] = CtxOfSpan(t, i, v)]
           /\ em' = <<>>
           /\ UNCHANGED lazy
-          /\ SLog([op |-> "begin", t |-> t, i |-> i, f |-> f, v |-> v])
+          /\ SLog([op |-> "begin", t |-> t, i |-> i, f |-> f, v |-> v, ex |-> x,
+                   xids |-> <<ExTr(i), ExId(i), ExPa(i)>>,
+                   \* what the code as it is makes ambient instead (to classify finding F30)
+                   lastwins |-> <<Child(t, i)[1], Child(t, i)[2],
+                                  IF Child(t, i)[3] # 0 THEN Child(t, i)[3] ELSE ExPa(i)>>])
 
 \* new_span! / SpanGuard::new: the guard and its frame exist but are not entered yet
 New(t, v) ==
@@ -348,7 +378,7 @@ Current(t) ==
     /\ SLog([op |-> "current", t |-> t, f |-> NextFrame(cx)])
 
 SNext ==
-    \/ \E t \in Threads, v \in BOOLEAN : Begin(t, v)
+    \/ \E t \in Threads, v \in BOOLEAN, x \in ExplicitKinds : Begin(t, v, x)
     \/ \E t \in Threads, v \in BOOLEAN : New(t, v)
     \/ \E t \in Threads, f \in Frames : SEnter(t, f)
     \/ \E t \in Threads : End(t)
@@ -373,8 +403,12 @@ LiveFrames == {f \in Frames : cx.fr[f].st \in {"idle", "in", "task"}}
 Started == {i \in Spans : sp[i].st # "none"}
 
 \* level B agrees with level A on every frame, hence (InnermostWins) on every thread
-FrameIds == \A f \in LiveFrames : cx.fr[f].logical = A_Ids(sp, ctxof[f])
-AmbientIds == \A t \in Threads : cx.act[t][1] = A_Ids(sp, LogicalCtx(cx, ctxof, t))
+\* (in the model of the code as it is, explicit-id spans deviate - finding F30, stated by
+\* ExplicitIdsWin - and so does everything created under them)
+Tainted == PushLastWins /\ \E i \in Spans : sp[i].st # "none" /\ sp[i].ex
+ExplicitIdsWin == \A i \in Spans : (sp[i].st # "none" /\ sp[i].ex) => sp[i].ids = <<ExTr(i), ExId(i), ExPa(i)>>
+FrameIds == ~Tainted => \A f \in LiveFrames : cx.fr[f].logical = A_Ids(sp, ctxof[f])
+AmbientIds == ~Tainted => \A t \in Threads : cx.act[t][1] = A_Ids(sp, LogicalCtx(cx, ctxof, t))
 
 \* every record emitted inside a tree carries the trace id of the tree's outermost span
 \* (or the incoming trace id)
@@ -384,31 +418,34 @@ IsCancel(n) == "cancel" \in DOMAIN em[n]
 Judged(n) == CancelOwnIds \/ ~IsCancel(n)
 CancelCarriesOwnIds == \A n \in 1..Len(em) : IsCancel(n) => em[n].ids = sp[em[n].i].ids
 
-OneTrace ==
+OneTrace == ~Tainted =>
     \A n \in 1..Len(em) : (Judged(n) /\ em[n].a # 0) => em[n].ids[1] = TraceOfRoot(RootOf(em[n].a))
 
 \* a span's parent is the id of the nearest enabled ancestor (or the incoming span id, or none),
 \* on the span itself and on the record it emits
-ParentIsEnclosing ==
-    /\ \A i \in Started : sp[i].ids[3] = (IF sp[i].encl = 0 THEN 0
-                                          ELSE IF IsInc(sp[i].encl) THEN A_Id(sp[i].encl) ELSE sp[sp[i].encl].ids[2])
-    /\ \A i \in Started : sp[i].ids[1] = (IF sp[i].encl = 0 \/ sp[i].encl = INCS THEN DrawTrace(i)
-                                          ELSE TraceOfRoot(RootOf(sp[i].encl)))
+ParentIsEnclosing == ~Tainted =>
+    /\ \A i \in Started : ~sp[i].ex =>
+          sp[i].ids[3] = (IF sp[i].encl = 0 THEN 0
+                          ELSE IF IsInc(sp[i].encl) THEN A_Id(sp, sp[i].encl) ELSE sp[sp[i].encl].ids[2])
+    /\ \A i \in Started : ~sp[i].ex =>
+          sp[i].ids[1] = (IF sp[i].encl = 0 \/ sp[i].encl = INCS THEN DrawTrace(i)
+                          ELSE TraceOfRoot(RootOf(sp[i].encl)))
+    /\ \A i \in Started : (sp[i].ex /\ ~PushLastWins) => sp[i].ids = <<ExTr(i), ExId(i), ExPa(i)>>
     /\ \A i \in Started : sp[i].encl \in Spans => sp[sp[i].encl].en
     /\ \A n \in 1..Len(em) : (Judged(n) /\ em[n].kind = "span") => em[n].ids = sp[em[n].i].ids
 
 \* events carry the ids of the innermost enclosing enabled span (nothing outside any span)
-EventCarriesInnermost ==
+EventCarriesInnermost == ~Tainted =>
     \A n \in 1..Len(em) : em[n].kind = "event" =>
         em[n].ids = (IF em[n].a = 0 THEN <<0, 0, 0>>
                      ELSE IF IsInc(em[n].a) THEN A_Ids(sp, em[n].a) ELSE sp[em[n].a].ids)
 
 \* span ids are non-zero and distinct, trace ids of distinct trees are distinct
-IdsDistinct ==
+IdsDistinct == (HasRng /\ ~Tainted) =>
     /\ \A i \in Started : sp[i].ids[2] # 0 /\ sp[i].ids[1] # 0 /\ sp[i].ids[2] # IN_SP
     /\ \A i, j \in Started : i # j => sp[i].ids[2] # sp[j].ids[2]
-    /\ \A i, j \in Started : (i # j /\ sp[i].encl \in {0, INCS} /\ sp[j].encl \in {0, INCS}) => sp[i].ids[1] # sp[j].ids[1]
-    /\ \A i \in Started : sp[i].encl \in {0, INCS} => sp[i].ids[1] # IN_TR
+    /\ \A i, j \in Started : (i # j /\ RootOf(i) = i /\ RootOf(j) = j) => sp[i].ids[1] # sp[j].ids[1]
+    /\ \A i \in Started : RootOf(i) = i => sp[i].ids[1] # IN_TR
 
 \* when a span ends (or its task suspends) the ambient ids are those from before it was entered
 Revert == ExitRestores
